@@ -10,7 +10,7 @@ then the regular block of that height is added) or `<via><mode><ntx>:<mut>,<mut>
 via `o` = block object to AddBlock, `b` = bytes through BlockFromRawBytes then AddBlock, `c` = ExecuteBlock + SubmitBlock;
 mode `r` = field mutations leave the signature alone, `s` = header re-signed by the rightful bookkeeper after the field mutations;
 ntx = number of transactions of the block.  After the ops one more valid block is added (`then:`).
-Output: one verdict per op, `then:<verdict>`, `h=<height gained>`.  When the as-shipped and the repaired pipeline differ: `a ## b`.
+Output: one verdict per op, `then:<verdict>`, `h=<height gained>`.
 -/
 namespace OntVerif.Driver.C39
 open OntVerif.Util OntVerif.Model.AddBlock
@@ -89,19 +89,19 @@ def sigMut (s : S) (m : String) (b : Block) : Option Block :=
   else if m == "keys=2" then setH { h with keys := [own, other], sigs := [sign P own h.u, sign P other h.u] }
   else none
 
-def deliver (v : Variant) (via : Char) (b : Block) (sr : Hash) (l : Ledger) : Option (Outcome × Ledger) :=
-  if via == 'o' then some (addBlock v P b sr l)
-  else if via == 'b' then some (addBlockBytes v P b sr l)
-  else if via == 'c' then some (submitBlock v P b l)
+def deliver (via : Char) (b : Block) (sr : Hash) (l : Ledger) : Option (Outcome × Ledger) :=
+  if via == 'o' then some (addBlock P b sr l)
+  else if via == 'b' then some (addBlockBytes P b sr l)
+  else if via == 'c' then some (submitBlock P b l)
   else none
 
-def doOp (v : Variant) (s : S) (op : String) : Option (String × S) :=
+def doOp (s : S) (op : String) : Option (String × S) :=
   if op == "fork" then
     let (txs, s) := freshTxs s 1
     let alt := validNext P s.l [] 1
     let (o1, l1) := addHeader P alt.hdr s.l
     let b := validNext P l1 txs 0
-    let (o2, l2) := addBlock v P b (stateRootOf P l1 b) l1
+    let (o2, l2) := addBlock P b (stateRootOf P l1 b) l1
     some (s!"fork:{outW o1}/{outW o2}", { s with l := l2, fork := some (P.hdrHash alt.hdr.u) })
   else
     match op.splitOn ":" with
@@ -123,29 +123,29 @@ def doOp (v : Variant) (s : S) (op : String) : Option (String × S) :=
           | some b3 =>
             let sr := stateRootOf P s.l b3
             let sr := if srFlip then 7 :: sr else sr
-            match deliver v via b3 sr s.l with
+            match deliver via b3 sr s.l with
             | none => none
             | some (o, l') => some (outW o, { s with l := l' })
       | _ => none
     | _ => none
 
-def addValid (v : Variant) (s : S) : Outcome × S :=
+def addValid (s : S) : Outcome × S :=
   let (txs, s) := freshTxs s 1
   let b := validNext P s.l txs 0
-  let (o, l) := addBlock v P b (stateRootOf P s.l b) s.l
+  let (o, l) := addBlock P b (stateRootOf P s.l b) s.l
   (o, { s with l := l })
 
-def runLine (v : Variant) (pre : Nat) (ops : List String) : String :=
+def runLine (pre : Nat) (ops : List String) : String :=
   let s0 : S := { l := genesis P, nextTx := 1, fork := none }
-  let s1 := (List.range pre).foldl (fun s _ => (addValid v s).2) s0
+  let s1 := (List.range pre).foldl (fun s _ => (addValid s).2) s0
   let h0 := s1.l.mem.curHeight
   let rec go (s : S) (ops : List String) (acc : List String) : String :=
     match ops with
     | [] =>
-      let (o, s') := addValid v s
+      let (o, s') := addValid s
       String.intercalate " | " (acc.reverse ++ [s!"then:{outW o}", s!"h=+{s'.l.mem.curHeight - h0}"])
     | op :: r =>
-      match doOp v s op with
+      match doOp s op with
       | none => "bad-op"
       | some (o, s') => go s' r (o :: acc)
   go s1 ops []
@@ -155,9 +155,7 @@ def handle (line : String) : String :=
   | ["A", pre, ops] =>
     match pre.toNat? with
     | some p =>
-      let a := runLine .asShipped p (ops.splitOn ";")
-      let b := runLine .sound p (ops.splitOn ";")
-      if a == b then a else a ++ " ## " ++ b
+      runLine p (ops.splitOn ";")
     | none => "bad-op"
   | _ => "bad-op"
 
